@@ -14,6 +14,8 @@ func c12(p *core.Program, r *core.Report) {
 	r.Rule("R1", "cached counts come from storage: every count passed to <fragment>.cache.Add/BulkAdd is <fragment>.storage.CountRange(..) (directly or through a local assigned only from it) or the constant 0; a count derived from the cache's own content (cache.Get + delta) is wrong whenever the row was evicted or never admitted")
 	r.Rule("R2", "count-cache update after storage mutation: every path from a storage mutation to a normal return of a fragment entry point passes <fragment>.cache.Add/BulkAdd (or replaces <fragment>.cache), unless the fragment has no count cache (CacheType == CacheTypeNone branch)")
 	r.Rule("R3", "zero is recorded: in every implementation of the cache interface, an early return of Add/BulkAdd that depends on the count n is conjoined with n > 0 (a zero count clears the entry); sibling methods must agree")
+	r.Rule("R6", "no stale entry: in every cache implementation that keeps per-row state (a map field), every path of Add/BulkAdd stores the new count under the row id, deletes the row's entry, or delegates to a sibling Add/BulkAdd; an update the cache chooses not to admit must still drop the count recorded before")
+	r.Rule("R7", "the rank cache's admission threshold is recomputed by every recalculation: rankCache.recalculate assigns thresholdValue on every path")
 	r.Rule("R5", "BSI views carry no count cache: view.open forces CacheTypeNone for views named with the bsig_ prefix (this is what exempts the BSI value writers from R2)")
 	r.NotDecided = "ranking, trimming and threshold arithmetic of the caches, Tanimoto, heap selection in fragment.top; counts restricted to a filter row"
 	pk := p.Pkg("")
@@ -177,10 +179,12 @@ func c12(p *core.Program, r *core.Report) {
 					continue
 				}
 				c12zero(p, r, info, fd)
+				c12NoStaleEntry(p, r, pk, tn, fd)
 			}
 		}
 	}
 	r.Floor("C12/R3 cache implementations", nImpl, 3)
+	c12ThresholdRecomputed(p, r, pk)
 }
 
 // c12zero: every `if cond { return }` in fd whose cond mentions the count
